@@ -1,11 +1,11 @@
 """C08 — timers measure elapsed tyme exactly and restart losslessly.
 
-hio.base.tyming.Tymer (virtual tyme), hio.help.timing.Timer and MonoTimer (wall clock).
+hio.base.tyming.Tymer (virtual tyme), hio.help.timing.Timer, AsyncTimer and MonoTimer (wall clock).
 
 Case shapes (every float is a float.hex() string, None is null):
   {"cls": "tymer", "dyadic": b, "init": {"now": h?, "dur": h?, "start": h?},
    "ops": [["start", now?, dur?, start?] | ["restart", now?, dur?] | ["wind", now?] | ["read", now?, kind]]}
-  {"cls": "timer" | "mono", "dyadic": b, "clock": [h, ...], "init": {"dur": h, "start": h?, "retro": b},
+  {"cls": "timer" | "atimer" | "mono", "dyadic": b, "clock": [h, ...], "init": {"dur": h, "start": h?, "retro": b},
    "ops": [["start", dur?, start?] | ["restart", dur?] | ["read", kind] | ["latest"]]}
 `now` is the tyme of the Tymist the Tymer is wound to when the op happens (null = not wound).
 `clock` is the script of values time.time() returns inside hio.help.timing (0.0 once used up).
@@ -20,8 +20,8 @@ COQ_CHECK = "Timers.check_case"
 COQ_CASE_TYPE = "Timers.case"
 COQ_BRANCHES = ("Timers.case_branches", "Timers.n_branches")
 RULE = ("op sequences on the real Tymer (construct with/without duration/start, wound or not; start, restart, wind, "
-        "reads of duration/elapsed/remaining/expired, each at its own tyme incl. rewinds and unwound), Timer and "
-        "MonoTimer (retro True/False; start, restart, reads, latest) under a scripted time.time() with forward, "
+        "reads of duration/elapsed/remaining/expired, each at its own tyme incl. rewinds and unwound), Timer, AsyncTimer "
+        "(same model as Timer) and MonoTimer (retro True/False; start, restart, reads, latest) under a scripted time.time() with forward, "
         "stalled and backward steps; values are dyadic grids (exact arithmetic: the oracle then also checks lossless "
         "restart, no drift and MonoTimer monotonicity in exact rationals) or arbitrary binary64 (0.1 multiples, 1/3, "
         "1e-9, 1e9, epoch-sized, random, occasionally inf/nan/-0.0/subnormal); every result and _start/_stop/_last "
@@ -33,7 +33,8 @@ MODELLED = [
     "time.time() as a scripted list of readings, one consumed per call (fake object bound to hio.help.timing.time)",
     "Tymist/tymth closure as the tyme value passed with each op (None = not wound)",
     "float(x) of a float argument as the identity; Timer/MonoTimer(duration=None) (TypeError, no object) not modelled",
-    "AsyncTimer (a copy of Timer over asyncio loop time) not modelled",
+    "AsyncTimer (a textual copy of Timer over the asyncio loop clock) is run against the Timer model with "
+    "asyncio.get_event_loop().time() reading the same script as time.time()",
 ]
 SHARD = 250
 
@@ -133,6 +134,11 @@ def directed():
                     ("read", "expired"), ("read", "duration"), ("read", "elapsed")]))
     out.append(_ck("timer", [0.1, 0.2, 0.30000000000000004, 0.4], (0.1, None, False),
                    [("read", "expired"), ("restart", None), ("read", "duration"), ("read", "elapsed")], dyadic=False))
+    # AsyncTimer is a textual copy of Timer over the event-loop clock: same model, same script
+    out.append(_ck("atimer", [10.0, 10.5, 11.0, 12.0, 12.5, 13.0, 14.0, 15.0],
+                   (2.0, None, False), [("read", "elapsed"), ("read", "remaining"), ("read", "expired"), ("start", None, None),
+                                        ("read", "duration"), ("restart", None), ("read", "elapsed"), ("read", "expired"),
+                                        ("read", "expired")]))
     # MonoTimer: forward, stalled, backward; retro True
     out.append(_ck("mono", [100.0, 100.0, 101.0, 101.0, 99.0, 99.0, 99.5, 90.0, 92.0, 95.0, 95.0],
                    (3.0, None, True), [("read", "elapsed"), ("latest",), ("read", "elapsed"), ("read", "expired"),
@@ -260,7 +266,7 @@ def generate(rng, tier):
         if r < 0.4:
             out.append(_gen_tymer(rng, dyadic))
         elif r < 0.6:
-            out.append(_gen_clock(rng, "timer", dyadic))
+            out.append(_gen_clock(rng, "timer" if rng.random() < 0.7 else "atimer", dyadic))
         else:
             out.append(_gen_clock(rng, "mono", dyadic))
     return out
@@ -343,8 +349,14 @@ def _run_clock(case):
     import hio.help.timing as timing
     init = case["init"]
     clk = _Clock([F(h) for h in case["clock"]])
-    real = timing.time
+    real, real_asyncio = timing.time, timing.asyncio
     timing.time = clk
+    if case["cls"] == "atimer":
+        class _Aio:                      # asyncio.get_event_loop().time() reads the same script
+            @staticmethod
+            def get_event_loop():
+                return clk
+        timing.asyncio = _Aio
     try:
         kw = {"duration": F(init["dur"])}
         if init["start"] is not None:
@@ -353,7 +365,7 @@ def _run_clock(case):
             t = timing.MonoTimer(retro=init["retro"], **kw)
             snap = lambda: [t._start.hex(), t._stop.hex(), t._last.hex()]
         else:
-            t = timing.Timer(**kw)
+            t = (timing.AsyncTimer if case["cls"] == "atimer" else timing.Timer)(**kw)
             snap = lambda: [t._start.hex(), t._stop.hex()]
         obs = {"snap0": snap(), "ticks0": [x.hex() for x in clk.log], "steps": []}
         for o in case["ops"]:
@@ -375,7 +387,7 @@ def _run_clock(case):
         obs["unread"] = max(0, len(clk.rs) - clk.i)
         return obs
     finally:
-        timing.time = real
+        timing.time, timing.asyncio = real, real_asyncio
 
 
 def run_impl(case):
@@ -679,7 +691,7 @@ def shrink(case):
 
 
 def distribution(cases, obs):
-    d = {"tymer": 0, "timer": 0, "mono": 0, "dyadic": 0, "arbitrary_binary64": 0, "mono_retro_reads": 0,
+    d = {"tymer": 0, "timer": 0, "atimer": 0, "mono": 0, "dyadic": 0, "arbitrary_binary64": 0, "mono_retro_reads": 0,
          "mono_retro_raises": 0, "tymer_unwound_typeerrors": 0, "restarts": 0, "mono_remaining_read_on_retrograde": 0}
     for c, o in zip(cases, obs):
         if not isinstance(o, dict) or "steps" not in o:
